@@ -4,7 +4,7 @@
    is cut into chunks at the range hyphens and reversed ranges are removed the way fnmatch.translate does it.
    fnmatch is a library oracle: this model is validated against CPython's fnmatch on generated
    (pattern, name) pairs by the leaf level of the C14 correspondence check.  No proofs here. *)
-From TL Require Import Lib.Base Model.CollectStr.
+From TL Require Import Lib.Base Model.CollectStr Gen.CollectGen.
 
 Inductive item := ISingle (c : ascii) | IRange (lo hi : ascii).
 Inductive tok := TStar | TAny | TLit (c : ascii) | TSet (neg : bool) (items : list item).
@@ -56,8 +56,8 @@ Fixpoint split_dash (off : nat) (s : list ascii) : option (list ascii * list asc
     end
   end.
 
-(* the `while True` loop (chunks.append(pat[i:k]); i = k+1; k = k+3 -- so the next search starts at offset 2 of the
-   rest) and the last chunk: pat[i:j] when it is not empty, else a "-" is appended to the chunk before it *)
+(* the `while True` loop (chunks.append(pat[i:k]); i = k+1; k = k+3 -- so the next search starts at offset 2 =
+   Gen.fnm_next_off of the rest) and the last chunk: pat[i:j] when it is not empty, else a "-" is appended to the chunk before it *)
 Fixpoint py_chunks (fuel off : nat) (cur : list ascii) : list (list ascii) :=
   match fuel with
   | 0 => [cur]
@@ -65,7 +65,7 @@ Fixpoint py_chunks (fuel off : nat) (cur : list ascii) : list (list ascii) :=
     match split_dash off cur with
     | None => [cur]
     | Some (a, []) => [a ++ [c_dash]]
-    | Some (a, b) => a :: py_chunks f 2 b
+    | Some (a, b) => a :: py_chunks f fnm_next_off b
     end
   end.
 
@@ -83,9 +83,10 @@ Fixpoint py_merge (chunks : list (list ascii)) : list (list ascii) :=
     end
   end.
 
-(* k = i+2 if pat[i] == '!' else i+1; without a "-" the text is taken as it is *)
+(* k = i+2 if pat[i] == '!' else i+1 (the two offsets are read from the interpreter's fnmatch.translate: Gen); without a "-"
+   the text is taken as it is *)
 Definition first_off (stuff : list ascii) : nat :=
-  match stuff with c :: _ => if aeqb c c_bang then 2 else 1 | [] => 1 end.
+  match stuff with c :: _ => if aeqb c c_bang then fnm_first_off_negated else fnm_first_off | [] => fnm_first_off end.
 
 Definition set_chunks (stuff : list ascii) : list (list ascii) :=
   if amem c_dash stuff then py_merge (py_chunks (S (List.length stuff)) (first_off stuff) stuff) else [stuff].
